@@ -686,3 +686,12 @@ def c17e(tree, ob):
                 ob.site(SESS, call, '{}: {} acts on the looked-up transfer'.format(hname, src(call)))
             else:
                 ob.violate(SESS, fv.qual, src(call), 'TX state is changed for something other than the transfer named by the peer', call)
+        # the transfer that is being sent is interrupted only if it is the one the peer named
+        for call in method_calls(fv.func, '_tx_teardown', 'self'):
+            named = fv.has(call, 'self._tx_tmp.transfer_id == transfer_id', True) or fv.has(call, 'transfer_id == self._tx_tmp.transfer_id', True) \
+                or fv.has(call, 'self._tx_tmp is item', True) or fv.has(call, 'item is self._tx_tmp', True) or fv.has(call, 'self._tx_tmp == item', True)
+            if named:
+                ob.site(SESS, call, '{}: interrupts the active transfer only when it is the one named'.format(hname))
+            else:
+                ob.violate(SESS, fv.qual, src(call) + '  (not under self._tx_tmp.transfer_id == transfer_id)', 'a peer message about one transfer tears down whichever transfer is being sent: that one stops mid-way, '
+                           'never gets its END segment and stays in the transmit map', call)
